@@ -3,13 +3,17 @@ from registry_common import COMMON_ASSUME
 ENTRY = dict(
         title="Schedule edits touch exactly the addressed slots; commit sends the edited week",
         design_ref="DESIGN.md section 6 / C18",
-        prop_modules=["C18", "C18Heap", "TieSchedule"],
+        prop_modules=["C18", "C18Heap", "C18Unaligned", "TieSchedule"],
         technique="Lean 4 theorems over all days / bitmaps / edit sequences (model of set_state, the bitmap codec, the device's receive-edit-commit pipeline) + translator tables + correspondence with ScheduleDay.set_state and with a real EcoMAX device (handle_frame, Schedule objects, Schedule.commit)",
         level_text=(
             "Proof: `C18.set_exact` (a call succeeds iff state valid, times parse, end after start; the day afterwards differs exactly on slots lo..hi, "
             "all set to the state), `set_length`, `set_error_inert`, `set_error_iff`, `time_range_aligned` (aligned times address the statement's slots, "
             "00:00 end = slot 47) and `holds_set` (the statement's predicate C18.specSet holds of the model for every 48-slot day, state string and "
-            "aligned pair); `join_split`, `split_join`, `decode_encode`, `encode_decode`, `decode_shape` for the bitmap codec; `commit_payload` "
+            "aligned pair); non-aligned minutes (Props/C18Unaligned.lean): `set_unaligned` / `set_exact_unaligned` (ANY parsed times: ok iff state valid and "
+            "end after start on EXACT minutes with exactly 00:00 read as 23:30; the slots floor(start/30)..floor(end/30) take the state, the others "
+            "keep theirs, 48 slots, never IndexError), `unaligned_eq_floored` (= the aligned call on the floored times outside two families), "
+            "`unaligned_same_slot` (10:15-10:20 sets one slot, floored it is ValueError), `unaligned_early_end` (an end in 00:01..00:29 is minutes "
+            "past midnight, floored it is the midnight end); `join_split`, `split_join`, `decode_encode`, `encode_decode`, `decode_shape` for the bitmap codec; `commit_payload` "
             "(after ANY edit sequence the payload is [1, index, switch, parameter] ++ encoding, Sunday first, of the received table with exactly the "
             "edits addressed to that schedule applied), `edit_rows`, `commit_unedited`, `slot_layout`/`holds_commit` (bit-level layout of the payload); "
             "`last_response_wins` (the same from ANY prior device state: the last response for a schedule replaces what was held), "
@@ -19,11 +23,12 @@ ENTRY = dict(
             "`commit_snapshot_full_false` (finding F6: the full statement 'the week at commit time is what is sent' is false, the request holds the "
             "live Schedule object); `set_never_index_error_48` / `set_partial_on_short_day` (errors are inert on 48-slot days; a shorter hand-made day is "
             "edited partially before IndexError); `schedule_table`, `schedule_parameter_names` re-prove the name tables read from today's source. The model is tied to the code by an "
-            "exhaustive run over all 48x48 aligned pairs x 4 states x day patterns, malformed states/times, non-aligned minutes, and by feeding "
+            "exhaustive run over all 48x48 aligned pairs x 4 states x day patterns, malformed states/times, a sweep over every start minute x boundary end minutes (thorough: all 1440x1440 minute pairs) answered by the model a start at a time, unpadded / non-ASCII-digit spellings of every minute, and by feeding "
             "SchedulesResponse payloads to a real EcoMAX, editing through its Schedule objects and comparing the queued SetScheduleRequest payload."),
         level_note="Trusted: Lean kernel; time-string parsing is datetime.strptime's (the model receives its (hour, minute) result or 'unparsable'); model <-> code tie is differential; asyncio dispatch exercised under the virtual loop.",
         clauses={
             "set_state changes exactly the slots start..end (end 00:00 = last slot), sets them to the state, keeps 48 slots": "theorem",
+            "times that are not half-hour aligned (legal '%H:%M' input the statement does not speak about): compared on exact minutes, exact-midnight rule, floored slot indexes; relation to the aligned call on the floored times": "theorem (set_exact_unaligned, unaligned_eq_floored, unaligned_same_slot, unaligned_early_end) + correspondence (minute sweep: all 1440 start minutes x boundary ends in quick, all 1440 x 1440 pairs in thorough, x 4 day/state combinations)",
             "invalid state / unparsable time / end not after start raises ValueError and changes nothing": "theorem (model) + correspondence (exception class of the implementation)",
             "join/split and decode/encode are mutually inverse; decoding and re-encoding an unedited schedule is the identity": "theorem",
             "commit payload = index, switch, parameter + 7x48 bitmap, Sunday first, = received bitmap with exactly the edits applied (serialised before any later edit; last response wins)": "theorem",
